@@ -4343,3 +4343,95 @@ func (f *FuncCFG) OKReturnsTrue() []site {
 	}
 	return out
 }
+
+// ---------------------------------------------------------------------------
+// tx-compatible (C06, C19) - "contains only transactions that are ... mutually compatible". The scratch pools that
+// AddBlock and the consensus service's verifyBlock run a block's transactions through do not fail on a transaction
+// that names a pooled one in a Conflicts attribute: Pool.Add *replaces* the named one when the fee allows. Both
+// functions therefore need a check of their own: a loop over the block's transactions that looks every Conflicts
+// hash up in the set of the block's hashes and rejects on a hit, before the block is stored / the proposal answered
+// with true. Without it a (Byzantine) primary's proposal [A, B conflicts A] is signed by honest backups; the reference
+// implementation rejects that proposal.
+func ruleTxCompatible(c *Ctx) {
+	type target struct {
+		fn   [3]string
+		role string
+	}
+	for _, tg := range []target{{[3]string{"pkg/core", "Blockchain", "AddBlock"}, "stores the block"}, {[3]string{"pkg/consensus", "service", "verifyBlock"}, "approves the proposal"}} {
+		fd := c.P.Func(tg.fn[0], tg.fn[1], tg.fn[2])
+		key := "tx-compatible." + tg.fn[2]
+		if fd == nil {
+			c.Lost(key+".anchor", tg.fn[1]+"."+tg.fn[2]+" not found")
+			continue
+		}
+		f := c.P.NewFuncCFG(fd)
+		info := f.Info
+		found, pos := false, token.NoPos
+		ast.Inspect(fd.Decl.Body, func(n ast.Node) bool {
+			rs, ok := n.(*ast.RangeStmt)
+			if !ok || !f.Mentions(rs.X, nil)[fldBlockTxs] {
+				return true
+			}
+			// inside: the Conflicts attributes of the element, and a map lookup keyed by the attribute's hash that rejects
+			mentionsConflicts := false
+			ast.Inspect(rs.Body, func(x ast.Node) bool {
+				if e, ok := x.(ast.Expr); ok {
+					m := f.DirectMentions(e)
+					if m["pkg/core/transaction.ConflictsT"] || m["pkg/core/transaction.(*Transaction).GetAttributes"] {
+						mentionsConflicts = true
+					}
+				}
+				return !mentionsConflicts
+			})
+			if !mentionsConflicts {
+				return true
+			}
+			ast.Inspect(rs.Body, func(x ast.Node) bool {
+				is, ok := x.(*ast.IfStmt)
+				if !ok {
+					return true
+				}
+				lookup := false
+				chk := func(e ast.Node) {
+					ast.Inspect(e, func(z ast.Node) bool {
+						if ix, ok := z.(*ast.IndexExpr); ok {
+							if _, isMap := info.TypeOf(ix.X).Underlying().(*types.Map); isMap {
+								m := f.Mentions(ix.Index, nil)
+								for s := range m {
+									if strings.HasSuffix(s, "pkg/core/transaction#Hash") || strings.Contains(s, "transaction.Conflicts") {
+										lookup = true
+									}
+								}
+							}
+						}
+						return true
+					})
+				}
+				chk(is.Cond)
+				if is.Init != nil {
+					chk(is.Init)
+				}
+				if !lookup {
+					return true
+				}
+				// the body rejects: ends in a return of a non-nil error / of false
+				if len(is.Body.List) > 0 {
+					if r, ok := is.Body.List[len(is.Body.List)-1].(*ast.ReturnStmt); ok && len(r.Results) == 1 {
+						if v, ok := boolConst(info, r.Results[0]); ok && !v {
+							found, pos = true, rs.Pos()
+						} else if !ok && !isNilIdent(info, r.Results[0]) {
+							found, pos = true, rs.Pos()
+						}
+					}
+				}
+				return true
+			})
+			return true
+		})
+		if found {
+			c.OK(key, c.P.Pos(pos), fmt.Sprintf("before it %s, %s looks every Conflicts hash of the block's transactions up among the block's own hashes and rejects on a hit", tg.role, tg.fn[2]))
+		} else {
+			c.Fail(key, c.P.Pos(fd.Decl.Pos()), fmt.Sprintf("%s.%s %s without checking that no transaction of the block names another one of the same block in a Conflicts attribute: the scratch pool it uses replaces the named transaction instead of failing, so a block [A, B conflicts A] is accepted, both are executed and B's conflict stub overwrites A's record", tg.fn[1], tg.fn[2], tg.role))
+		}
+	}
+}
